@@ -95,6 +95,15 @@ Theorem C15_schedule_jobs :
 Proof. exact schedule_jobs_spec. Qed.
 Print Assumptions C15_schedule_jobs.
 
+(* Before the Altair fork -- whatever the parameters, including a fork epoch of FAR_FUTURE_EPOCH
+   = 2^64-1, which is outside [in_range] -- the call does nothing: no duties request, no job, no
+   subscription. *)
+Theorem C15_before_fork_nothing :
+  forall p i, epoch_of_slot p (si_cur i) < fork p ->
+    schedule p i = {| so_query := None; so_jobs := []; so_sub := None |}.
+Proof. exact before_fork_nothing. Qed.
+Print Assumptions C15_before_fork_nothing.
+
 (* ------------------------------------------------------------------------------------------- *)
 (* C15_message_every_slot.  For every call that reaches the loop and every slot of the window
    whose jobs run: unless a step fails for the whole batch (head root unavailable, selection
@@ -301,6 +310,47 @@ Theorem C15_check_predicate_sound :
              /\ (f_sel_err f = false -> o_msg_job o = Some (message_time p (f_slot f)))).
 Proof. exact P_b_sound. Qed.
 Print Assumptions C15_check_predicate_sound.
+
+(* ... the observed selection-signer call, root-signer call (slot's epoch, slot's head root, no nil
+   hole, only members with an account), aggregation job and contributions are those of
+   C15_subcommittee_and_selection_spec / C15_contribution_sound / C15_contribution_complete ... *)
+Theorem C15_check_predicate_sound_contributions :
+  forall c,
+    P_b c = true -> chain_ok (c_par c) ->
+    let p := c_par c in let i := c_in c in
+    forall k f o r, nth_error (c_fires c) k = Some f -> nth_error (c_fouts c) k = Some o ->
+      ready p i -> in_window p i (f_slot f) -> f_root f = Some r ->
+      let aggs := aggregators p (members i) (has_account i) f in
+      (forall x, In x (opt_list (o_sel_call o)) <-> In x (sel_pairs p (members i) (has_account i)))
+      /\ (forall c, In c (opt_list (o_contribs o)) ->
+           In (cp_agg c, cp_subc c) aggs /\ c = mk_contrib f r (cp_agg c, cp_subc c))
+      /\ NoDup (map (fun c => (cp_agg c, cp_subc c)) (opt_list (o_contribs o)))
+      /\ (f_sel_err f = false -> f_root_err f = false -> f_submit_err f = false ->
+          (exists v, has_duty i v /\ holds_account i v /\ ~ In v (f_root_zero f)) ->
+          (aggs = [] -> o_agg_job o = None)
+          /\ (aggs <> [] -> o_agg_job o = Some (aggregate_time p (f_slot f))
+              /\ (f_cp_err f = false -> (forall x, In x aggs -> ~ In (snd x) (f_contrib_err f)) ->
+                  forall x, In x aggs -> In (mk_contrib f r x) (opt_list (o_contribs o)))))
+      /\ (forall accts e rr, o_root_call o = Some (accts, e, rr) ->
+            e = f_slot f / spe p /\ rr = r
+            /\ forall a, In a accts -> exists v, a = Some v /\ has_duty i v /\ holds_account i v).
+Proof. exact P_b_sound_contributions. Qed.
+Print Assumptions C15_check_predicate_sound_contributions.
+
+(* ... and a direct Aggregate call submitted exactly the contributions of the aggregators that
+   have an account, each once, all of them unless the node or the contribution signer fails. *)
+Theorem C15_check_predicate_sound_aggregate :
+  forall c a o,
+    P_b c = true -> c_agg c = Some (a, o) ->
+    (forall c, In c (opt_list o) ->
+       exists r, agg_root a = Some r /\ In (cp_agg c, cp_subc c) (agg_items a)
+                 /\ c = agg_contrib a r (cp_agg c, cp_subc c))
+    /\ NoDup (map (fun c => (cp_agg c, cp_subc c)) (opt_list o))
+    /\ (forall r, agg_root a = Some r -> a_cp_err a = false ->
+        (forall x, In x (agg_items a) -> ~ In (snd x) (a_contrib_err a)) ->
+        forall x, In x (agg_items a) -> In (agg_contrib a r x) (opt_list o)).
+Proof. exact P_b_sound_aggregate. Qed.
+Print Assumptions C15_check_predicate_sound_aggregate.
 
 (* Conversely the predicate is never stronger than what the model does: on every input in range, a
    case on which the implementation agrees with the model (Check.C15.agree) passes P_b.  So on a
